@@ -63,7 +63,8 @@ def _check_run(res, r, what, actions=("Cycle",)):
 # generic product walk (spec state x implementation control state)
 # ============================================================================================
 
-def walk(factory, graph, init, step, diff, name, perturb=None, limit=MAX_VIOL_PER_DUT, acts_filter=None):
+def walk(factory, graph, init, step, diff, name, perturb=None, limit=MAX_VIOL_PER_DUT, acts_filter=None,
+         obs_fields=None):
     """graph: {state: {act: (state2, expected)}}.  From every reachable pair (spec state, dut.sig()) every
     spec transition is applied to the device (step(dut, act) -> obs) and compared (diff(obs, exp) -> clause or
     None).  Returns statistics and the mismatches, each with the shortest known action path to it."""
@@ -74,6 +75,7 @@ def walk(factory, graph, init, step, diff, name, perturb=None, limit=MAX_VIOL_PE
     viol = []
     ncyc = nedge = nraw = npert = 0
     aborted = False
+    trail = []                  # every action applied to the current device since it was built
 
     def acts_of(ps):
         a = list(graph[ps[0]])
@@ -83,6 +85,7 @@ def walk(factory, graph, init, step, diff, name, perturb=None, limit=MAX_VIOL_PE
         nonlocal ncyc
         ncyc += 1
         s2, exp = graph[ps[0]][act]
+        trail.append(act)
         try:
             obs = step(dut, act)
             bad = diff(obs, exp)
@@ -110,17 +113,23 @@ def walk(factory, graph, init, step, diff, name, perturb=None, limit=MAX_VIOL_PE
             out.append(a)
         return out[::-1]
 
+    pending = {start: acts_of(start)[::-1]}      # product state -> actions not tried yet (popped from the end)
+
     while True:
-        todo = [a for a in acts_of(cur) if a not in dest[cur]]
-        if todo:
-            act = todo[0]
+        if pending[cur]:
+            act = pending[cur].pop()
             s2, exp, obs, bad = apply(cur, act)
             nedge += 1
             if bad:
+                # the shortest known path to this product state; for a mismatch raised by the driver (it may
+                # depend on earlier cycles of this very run) the actual actions since the device was built
+                use_trail = obs_fields is not None and bad not in obs_fields and len(trail) <= 400
+                p = trail[:-1] if use_trail else path_to(cur)
                 viol.append({"clause": bad, "state": cur[0], "sig": list(cur[1]), "act": act, "expected": exp,
-                             "observed": obs, "path": path_to(cur)})
+                             "observed": obs, "path": p})
                 dest[cur][act] = None
                 dut = factory()
+                del trail[:]
                 cur = start
                 nraw += 1
                 if len({(v["clause"], v["state"], v["act"]) for v in viol}) >= limit or nraw >= MAX_RAW_PER_DUT:
@@ -135,7 +144,9 @@ def walk(factory, graph, init, step, diff, name, perturb=None, limit=MAX_VIOL_PE
                 npert += 1
             nxt = (s2, dut.sig())
             dest[cur][act] = nxt
-            dest.setdefault(nxt, {})
+            if nxt not in dest:
+                dest[nxt] = {}
+                pending[nxt] = acts_of(nxt)[::-1]
             cur = nxt
             continue
         prev = {cur: None}
@@ -143,7 +154,7 @@ def walk(factory, graph, init, step, diff, name, perturb=None, limit=MAX_VIOL_PE
         goal = None
         while dq:
             x = dq.popleft()
-            if any(a not in dest[x] for a in acts_of(x)):
+            if pending[x]:
                 goal = x
                 break
             for a, y in dest[x].items():
@@ -178,19 +189,21 @@ _A_PROPS = ("StepFifo", "RefinesChannel", "RefinesFifo")
 _AG = {}        # (kind, cf) -> {state: {act: (state2, out)}}
 A_INIT = ((), False, (), False)
 A_FIELDS = ("enq_rdy", "deq_rdy", "enq_xfer", "deq_xfer", "ret", "deq_msg", "pblk", "cblk", "count2", "ent2", "clr2")
-A_CAP = {"rtl2cl": 0, "and": 0, "fl2cl": 1, "fl2rtl": 2}
 
 
 def _cfs(kind):
     return (True, False) if kind == "fl2rtl" else (True,)
 
 
-def _a_cfg(kind, cf, view=True, maxhist=0, props=True):
-    s = "SPECIFICATION Spec\nCONSTANTS Kind = \"%s\"\n ClearFirst = %s\n Msgs = {%s}\n MaxHist = %d\n" % (
-        kind, "TRUE" if cf else "FALSE", ", ".join(map(str, MSGS)), maxhist)
+def _a_cfg(view=True, maxhist=0):
+    """view: histories hidden, every invariant and step property on every transition; otherwise the histories
+    are kept up to maxhist accepted messages and the invariants (which are what speaks about them) are checked."""
+    s = "SPECIFICATION Spec\nCONSTANTS KindSet = {%s}\n Msgs = {%s}\n MaxHist = %d\n" % (
+        ", ".join('"%s"' % k for k in ADAPTER_KINDS), ", ".join(map(str, MSGS)), maxhist)
     s += "VIEW View\n" if view else "CONSTRAINT HistBound\n"
-    if props:
-        s += "".join("INVARIANT %s\n" % i for i in _A_INVS) + "".join("PROPERTY %s\n" % p for p in _A_PROPS)
+    s += "".join("INVARIANT %s\n" % i for i in _A_INVS)
+    if view:
+        s += "".join("PROPERTY %s\n" % p for p in _A_PROPS)
     return s + "CHECK_DEADLOCK FALSE\n"
 
 
@@ -207,51 +220,52 @@ def _a_act_str(a):
 
 
 def adapter_model_check(res, maxhist):
-    """Adapter.tla for every kind (and both block orders of fl2rtl): exhaustive with the histories hidden by the
-    VIEW -- the same run dumps the state graph for the walk -- and once with the histories kept up to a bound;
-    Channel.tla for capacities 0..3."""
-    jobs = [("dump", k, cf) for k in ADAPTER_KINDS for cf in _cfs(k) if (k, cf) not in _AG]
-    jobs += [("hist", k, cf) for k in ADAPTER_KINDS for cf in _cfs(k)]
-    jobs += [("chan", c, None) for c in (0, 1, 2, 3)]
-
-    def one(j):
-        tag, k, cf = j
+    """Adapter.tla, all kinds (and both block orders of fl2rtl) in one run -- kind is chosen in the initial state:
+    exhaustive with the histories hidden by the VIEW (the same run dumps the state graphs for the walk), and
+    once with the histories kept up to a bound; Channel.tla for capacities 0..3."""
+    def one(tag):
         if tag == "dump":
-            return j, _run_dump("Adapter", _a_cfg(k, cf, True, 0))
+            return tag, _run_dump("Adapter", _a_cfg(True, 0))
         if tag == "hist":
-            return j, tlc.run("Adapter", cfg_text=_a_cfg(k, cf, False, maxhist), coverage=True, workers=2, timeout=1800)
-        cfg = ("SPECIFICATION Spec\nCONSTANTS Cap = %d\n Msgs = {%s}\n MaxHist = %d\nCONSTRAINT HistBound\n"
+            return tag, tlc.run("Adapter", cfg_text=_a_cfg(False, maxhist), coverage=True, workers=4, timeout=1800)
+        cfg = ("SPECIFICATION Spec\nCONSTANTS Caps = {0, 1, 2, 3}\n Msgs = {%s}\n MaxHist = %d\nCONSTRAINT HistBound\n"
                "INVARIANT TypeOK\nINVARIANT Bounded\nINVARIANT DeliveredPrefix\nINVARIANT Conservation\n"
-               "PROPERTY StepFifo\nCHECK_DEADLOCK FALSE\n" % (k, ", ".join(map(str, MSGS)), maxhist))
-        return j, tlc.run("Channel", cfg_text=cfg, coverage=True, workers=2, timeout=1800)
+               "PROPERTY StepFifo\nCHECK_DEADLOCK FALSE\n" % (", ".join(map(str, MSGS)), maxhist + 1))
+        return tag, tlc.run("Channel", cfg_text=cfg, coverage=True, workers=4, timeout=1800)
 
     nstates = {}
-    for (tag, k, cf), out in _par(one, jobs):
-        what = "%s.tla(%s%s,%s)" % ("Channel" if tag == "chan" else "Adapter",
-                                    "cap=%d" % k if tag == "chan" else k,
-                                    "" if cf is None or k != "fl2rtl" else ",ClearFirst=%s" % cf, tag)
+    for tag, out in _par(one, ["dump", "hist", "chan"]):
+        what = {"dump": "Adapter.tla(all kinds,view)", "hist": "Adapter.tla(all kinds,hist<=%d)" % maxhist,
+                "chan": "Channel.tla(caps 0..3,hist<=%d)" % (maxhist + 1)}[tag]
         if tag != "dump":
             _check_run(res, out, what)
             continue
         r, states, init, edges = out
         if not _check_run(res, r, what):
             continue
-        g = {}
+        gs = {}
         for (s, d, name, args) in edges:
             a = (bool(args[0]), int(args[1]), bool(args[2]), bool(args[3]))
+            kc = (states[s]["kind"], bool(states[s]["cfirst"]))
+            g = gs.setdefault(kc, {})
             dst = (_a_key(states[d]["st"]), states[d]["out"])
             old = g.setdefault(_a_key(states[s]["st"]), {}).get(a)
             if old is not None and old != dst:
-                raise MachineryError("Adapter graph %s: outputs depend on more than st at %s %s" % (k, s, a))
+                raise MachineryError("Adapter graph %s: outputs depend on more than st at %s %s" % (kc, s, a))
             g[_a_key(states[s]["st"])][a] = dst
-        if len(init) != 1 or _a_key(states[next(iter(init))]["st"]) != A_INIT:
-            raise MachineryError("Adapter graph %s: unexpected initial state" % k)
-        for s, acts in g.items():
-            want = (1 if s[2] else 1 + len(MSGS)) * (1 if s[3] else 2) * 2
-            if len(acts) != want:
-                raise MachineryError("Adapter graph %s: %d actions at %s, expected %d" % (k, len(acts), s, want))
-        _AG[(k, cf)] = g
-        nstates["%s%s" % (k, "" if k != "fl2rtl" else ("/clear-first" if cf else "/caller-first"))] = len(g)
+        want = {(k, cf) for k in ADAPTER_KINDS for cf in _cfs(k)}
+        if set(gs) != want or len(init) != len(want):
+            raise MachineryError("Adapter graph: kinds %s, expected %s" % (sorted(gs), sorted(want)))
+        for i in init:
+            if _a_key(states[i]["st"]) != A_INIT:
+                raise MachineryError("Adapter graph: unexpected initial state %s" % states[i])
+        for (k, cf), g in gs.items():
+            for s, acts in g.items():
+                n = (1 if s[2] else 1 + len(MSGS)) * (1 if s[3] else 2) * 2
+                if len(acts) != n:
+                    raise MachineryError("Adapter graph %s: %d actions at %s, expected %d" % (k, len(acts), s, n))
+            _AG[(k, cf)] = g
+            nstates["%s%s" % (k, "" if k != "fl2rtl" else ("/clear-first" if cf else "/caller-first"))] = len(g)
     res.note("adapter_model_check", {"invariants": list(_A_INVS), "properties": list(_A_PROPS), "max_accepted": maxhist,
                                      "adapter_states(st)": nstates, "channel_caps": [0, 1, 2, 3]})
 
@@ -318,9 +332,48 @@ def _make_adapter(name, cls, cf=None, tries=40):
     return None
 
 
+_PROBE_DO = (0, 0, 1, 1, 0, 1, 1, 1, 0, 0, 1, 0, 1, 1, 0, 1)
+A_CAPOF = {"rtl2cl": 0, "and": 0, "fl2cl": 1, "fl2rtl": 2}        # Adapter!CapOf; every other kind: 1
+_NEVER_READY_REPRO = {"RecvRTL2GiveFL": "repro/C17/repro_rtl2givefl_never_ready.py"}
+
+
+def never_ready_probe(name, cls):
+    """C17 states ready/valid rules for the library QUEUES; for an adapter it only gives the channel clauses.
+    An adapter that never accepts anything loses nothing: its being LESS ready than Adapter.tla (a model of
+    the code's kind) is an observation, not a violation.  The probe drives a fresh design from the empty state
+    with a standing offer and a varying consumer for len(_PROBE_DO) cycles.  Returns a description when the
+    adapter was never ready, never took a message and never delivered anything; None as soon as it accepts a
+    message (then the full walk and every clause apply)."""
+    d = _make_adapter(name, cls)
+    seen = []
+    for i, do in enumerate(_PROBE_DO):
+        eo = not d.pblk()
+        do = bool(do) or d.cblk()
+        try:
+            o = d.cycle(eo, 1 + i % len(MSGS), do)
+        except MachineryError:
+            raise
+        except Exception:
+            return None                                     # a crash is for the walk to report
+        if o.get("illegal") or o["enq_xfer"] or o["deq_xfer"] or o["enq_rdy"]:
+            return None
+        seen.append(o["enq_rdy"])
+    if not any(x is False for x in seen):
+        return None                                         # readiness was never observable
+    return {"cycles": len(_PROBE_DO), "enq_rdy": "low in every cycle from the empty state, standing offer, consumer "
+            "ready in %d of %d cycles" % (sum(_PROBE_DO), len(_PROBE_DO)), "accepted": 0, "delivered": 0,
+            "repro": _NEVER_READY_REPRO.get(cls)}
+
+
 def _adapter_walk_job(job):
     import c17_adapters
     name, kind, cls, cf = job
+    try:
+        dead = never_ready_probe(name, cls)
+    except c17_adapters.Unbuildable as e:
+        return {"name": name, "kind": kind, "unbuildable": str(e)}
+    if dead is not None:
+        return {"name": name, "kind": kind, "cls": cls, "never_ready": dead}
     try:
         first = _make_adapter(name, cls, cf)
     except c17_adapters.Unbuildable as e:
@@ -339,7 +392,7 @@ def _adapter_walk_job(job):
             raise MachineryError("%s: could not rebuild the design with the same block order" % name)
         return d
 
-    r = walk(factory, _AG[(kind, cfx)], A_INIT, a_step, a_diff, name, perturb=a_perturb)
+    r = walk(factory, _AG[(kind, cfx)], A_INIT, a_step, a_diff, name, perturb=a_perturb, obs_fields=A_FIELDS)
     r.update({"kind": kind, "cf": cfx, "signames": first.signames(), "sched": first.sched})
     return r
 
@@ -362,7 +415,7 @@ def adapter_walks(res, cat):
             jobs.append((e.name, e.kind, e.cls, cf))
     with _pool() as ex:
         results = list(ex.map(_adapter_walk_job, jobs))
-    table, skipped, orders = {}, [], {}
+    table, skipped, orders, observations = {}, [], {}, {}
     for r in results:
         name = r["name"]
         if "unbuildable" in r:
@@ -375,6 +428,15 @@ def adapter_walks(res, cat):
             res.violation("build:%s:%s" % (name, r["unbuildable"].split(":")[0]),
                           "%s cannot be elaborated: %s" % (name, r["unbuildable"]), r)
             continue
+        if "never_ready" in r:
+            observations[name] = dict(r["never_ready"], kind=r["kind"], cls=r["cls"],
+                                      model="Adapter.tla(%s) is ready whenever its buffer is empty" % r["kind"])
+            res.count("adapter_observations_count")
+            res.assume("%s never raises its ready output and never accepts a message (observation, see "
+                       "adapter_observations%s): an adapter that accepts nothing loses nothing, so only the channel "
+                       "clauses are demanded of it; the ready-exactness clauses and the walk apply again as soon as it "
+                       "accepts a message" % (name, "; " + r["never_ready"]["repro"] if r["never_ready"]["repro"] else ""))
+            continue
         if r.get("order_not_found"):
             orders.setdefault(name, {})["clear-first" if r["cf"] else "caller-first"] = "not produced by the scheduler"
             continue
@@ -386,19 +448,22 @@ def adapter_walks(res, cat):
         table["%s%s" % (name, "" if r["kind"] != "fl2rtl" else ("/clear-first" if r["cf"] else "/caller-first"))] = [
             r["product_states"], r["edges"]]
         for v in r["violations"]:
-            key = "replay:%s:%s:%s:%s" % (name, v["clause"], _a_state_str(v["state"]), _a_act_str(v["act"]))
-            res.violation(key, "%s (adapter kind %s): in state %s, offer %s -> %s differs from Adapter.tla: expected %s, "
-                          "observed %s" % (name, r["kind"], _a_state_str(v["state"]), _a_act_str(v["act"]), v["clause"],
-                                           _a_short(v["expected"]), {k: x for k, x in v["observed"].items() if x is not None}),
+            key = "replay:%s:%s:%s" % (name, v["clause"], _a_state_str(v["state"]))
+            how = ("output %s differs from Adapter.tla" % v["clause"] if v["clause"] in A_FIELDS
+                   else "%s (seen by the harness driver)" % v["clause"])
+            res.violation(key, "%s (adapter kind %s): in state %s, offer %s -> %s: expected %s, observed %s"
+                          % (name, r["kind"], _a_state_str(v["state"]), _a_act_str(v["act"]), how,
+                             _a_short(v["expected"]), {k: x for k, x in v["observed"].items() if x is not None}),
                           _a_detail(r, v))
         if not r["violations"] and r["spec_states"] != r["spec_states_total"]:
             raise MachineryError("%s: only %d of %d spec states reached without any mismatch"
                                  % (name, r["spec_states"], r["spec_states_total"]))
     for name, o in orders.items():
-        if "walked" not in o.values():
+        if "walked" not in o.values() and name not in observations:
             raise MachineryError("%s: no block order could be walked: %s" % (name, o))
     res.note("adapter_walks_productstates_edges", table)
     res.note("adapters_not_buildable_on_this_tree", skipped)
+    res.note("adapter_observations", observations)
     res.note("fl2rtl_block_orders", orders)
     ok = [r for r in results if "edges" in r]
     if ok:
@@ -649,6 +714,11 @@ def _adapter_trace_job(job):
         return {"dut": name, "idx": idx, "unbuildable": str(e)}
     cf = dut.clear_first()
     R = rng("c17/adapter/%s/%d" % (name, idx))
+    if tag == "adapter" and never_ready_probe(name, cls) is not None:
+        # never ready (an observation): the history is judged on the channel clauses only
+        t = record(dut, R, length, "chan", True, cap=A_CAPOF.get(kind, 1), drain=6)
+        t["dut"], t["idx"], t["tag"] = name, idx, "never-ready"
+        return t
     if tag == "chain":
         t = record(dut, R, length, "chan", True, cap=cap, drain=2 * (depth + cap) + 6, resets=False)
         t["inserted"] = dut.inserted()
@@ -699,12 +769,14 @@ def adapter_traces(res, cat, chs, per, lmin, lmax):
     ok = []
     for t, (err, pos) in zip(good, verdicts):
         res.distinct(("adapter-trace", t["dut"], t["idx"]))
-        cyc = [e for e in t["ev"] if e["k"] == "cycle"]
         if err == "ok":
             ok.append(t)
             continue
         e = t["ev"][pos - 1]
-        key = "trace:%s:%s" % (t["dut"], err)
+        # one key for "the messages delivered are not the messages accepted" (a composition shows the same
+        # root cause as a wrong value at delivery or as a delivered object that changes later)
+        corrupt = err.startswith("wrong-message") or (t["kind"] == "chan" and err == "delivered-message-changed-after-delivery")
+        key = "trace:%s:%s" % (t["dut"], "wrong-message" if corrupt else err)
         model = "Channel.tla(cap=%d)" % t["cap"] if t["kind"] == "chan" else "Adapter.tla(%s)" % t["kind"]
         res.violation(key, "%s (model %s): %s at cycle %d of a random offer history: %s" % (t["dut"], model, err, pos, e),
                       {"dut": t["dut"], "idx": t["idx"], "clause": err, "event": pos, "model": model,
@@ -719,7 +791,11 @@ def adapter_traces(res, cat, chs, per, lmin, lmax):
         d["pb"] += sum(e.get("pb", 0) for e in cyc)
         d["cb"] += sum(e.get("cb", 0) for e in cyc)
         d["full"] += sum(1 for e in cyc if e.get("er") == 0 and e["eo"])
+    dead = {t["dut"] for t in good if t["tag"] == "never-ready"}
+    res.note("adapter_histories_judged_on_channel_clauses_only", sorted(dead))
     for name, d in by.items():
+        if name in dead and not d["acc"]:
+            continue
         if not (d["acc"] and d["del"]):
             raise MachineryError("vacuous histories for %s: %s" % (name, d))
     res.note("adapter_trace_events", nev)
@@ -812,11 +888,18 @@ def adapter_trace_canaries(res, ok):
     res.note("adapter_trace_canary_clauses", sorted({v[0] for v in cv[:-1]}))
 
 
+def model_check_jobs(res, quick):
+    """The TLC runs of parts 6 and 7 (independent of everything else: run side by side with those of the queue
+    part).  `res` must be safe to call from several threads."""
+    return [lambda: adapter_model_check(res, 3 if quick else 5),
+            lambda: regfile_model_check(res, list(_RF_SMALL if quick else _RF_MORE))]
+
+
 def run_adapters(res, quick, lap):
     import c17_adapters
     cat, chs = c17_adapters.catalogue(), c17_adapters.chains()
-    adapter_model_check(res, 4 if quick else 6)
-    lap("adapter_model_check_and_graph_dumps")
+    if not _AG:
+        adapter_model_check(res, 3 if quick else 5)
     adapter_walks(res, cat)
     adapter_walk_canaries(res)
     lap("adapter_walks")
@@ -824,9 +907,489 @@ def run_adapters(res, quick, lap):
     lap("adapter_traces")
     adapter_trace_canaries(res, ok)
     lap("adapter_trace_canaries")
+    res.note("rule_adapters", "spec->code: every transition (enq?, msg in 1..3, deq?, reset?; a blocked FL caller keeps its "
+             "offer) of Adapter.tla from every reachable pair (adapter state, implementation control state) on every adapter "
+             "class and every connect-hook design; code->spec: %d random bursty histories (150..%d cycles + drain, serial-number "
+             "payloads, 3%% reset cycles) per adapter / hook design / composition; a case is one walk or one history"
+             % (3 if quick else 40, 400 if quick else 1500))
     res.note("adapter_designs", {"adapters_and_hooks": [e.name for e in cat], "compositions": {c.name: c.cap for c in chs}})
     res.assume("adapters: a blocked FL caller keeps its offer (the harness cannot withdraw a call in progress); the "
                "order of RecvFL2SendRTL.up_clear and the calling block is read from the schedule and both orders are "
                "admitted; the buffer occupancy / pending clear of an adapter are read from s.entry / s.send.en (white box)")
     res.assume("compositions are judged on the channel property only (FIFO delivery, occupancy <= summed capacity, "
                "nothing left after a drain phase); their ready outputs are not pinned down")
+
+
+# ============================================================================================
+# 7. register files
+# ============================================================================================
+
+_RF_SMALL = (
+    dict(n=3, rd=1, wr=1, vals=(0, 1, 2), cz=False, hr=False, rv=0),
+    dict(n=3, rd=1, wr=1, vals=(0, 1, 2), cz=True, hr=True, rv=2),
+    dict(n=2, rd=2, wr=2, vals=(0, 1), cz=True, hr=False, rv=0),
+    dict(n=2, rd=1, wr=2, vals=(0, 1, 2), cz=False, hr=True, rv=1),
+    dict(n=3, rd=1, wr=2, vals=(0, 1), cz=True, hr=True, rv=0),
+    dict(n=2, rd=1, wr=2, vals=(0, 1), cz=False, hr=False, rv=0),
+)       # all four write blocks (RegisterFile / RegisterFileRst x const_zero) are walked with two write ports
+_RF_MORE = _RF_SMALL + (
+    dict(n=4, rd=1, wr=1, vals=(0, 1, 2), cz=False, hr=False, rv=0),
+    dict(n=3, rd=2, wr=2, vals=(0, 1), cz=False, hr=True, rv=1),
+    dict(n=2, rd=3, wr=2, vals=(0, 1, 2), cz=True, hr=True, rv=0),
+    dict(n=5, rd=1, wr=1, vals=(0, 1), cz=True, hr=False, rv=0),
+)
+_RG = {}        # shape key -> {regs: {act: (regs2, expected)}}
+
+
+def _rf_key(sh):
+    return (sh["n"], sh["rd"], sh["wr"], sh["vals"], sh["cz"], sh["hr"], sh["rv"])
+
+
+def _rf_name(sh):
+    return "n=%d,rd=%d,wr=%d,vals=%d,cz=%d,hr=%d,rv=%d" % (sh["n"], sh["rd"], sh["wr"], len(sh["vals"]), sh["cz"],
+                                                           sh["hr"], sh["rv"])
+
+
+def _rf_cfg(sh, prop="StepProps"):
+    t = lambda b: "TRUE" if b else "FALSE"
+    return ("SPECIFICATION Spec\nCONSTANTS NRegs = %d\n RdPorts = %d\n WrPorts = %d\n Vals = {%s}\n ConstZero = %s\n"
+            " HasReset = %s\n ResetValue = %d\nVIEW View\nINVARIANT TypeOK\nINVARIANT ConstZeroInv\nPROPERTY %s\n"
+            "CHECK_DEADLOCK FALSE\n" % (sh["n"], sh["rd"], sh["wr"], ", ".join(map(str, sh["vals"])), t(sh["cz"]),
+                                        t(sh["hr"]), sh["rv"], prop))
+
+
+def _fun_tuple(f, n):
+    return tuple(f[a] for a in range(n))
+
+
+def regfile_model_check(res, shapes):
+    """RegFile.tla for every small shape: the invariants and the step properties (read data = contents before
+    the edge, frame, last port wins, reset) on every transition; the same run dumps the state graph.  One more
+    run must REFUTE a false step property (the step properties are not checked vacuously)."""
+    jobs = [("dump", sh) for sh in shapes if _rf_key(sh) not in _RG] + [("canary", shapes[0])]
+
+    def one(j):
+        tag, sh = j
+        if tag == "canary":
+            return j, tlc.run("RegFile", cfg_text=_rf_cfg(sh, "CanaryNothingEverWritten"), workers=1, timeout=600)
+        return j, _run_dump("RegFile", _rf_cfg(sh))
+
+    table = {}
+    for (tag, sh), out in _par(one, jobs):
+        if tag == "canary":
+            res.add_tlc(out)
+            if "CanaryNothingEverWritten" not in out.violated:
+                raise MachineryError("RegFile.tla: TLC did not refute the false step property (step properties are "
+                                     "not being checked): %s %s\n%s" % (out.violated, out.errors, out.out[-1500:]))
+            continue
+        r, states, init, edges = out
+        what = "RegFile.tla(%s)" % _rf_name(sh)
+        if not _check_run(res, r, what):
+            continue
+        n = sh["n"]
+        g = {}
+        for (s, d, name, args) in edges:
+            ra, rd, wa, wd, we, rst = args
+            act = (tuple(ra), tuple(wa), tuple(wd), tuple(bool(x) for x in we), bool(rst))
+            src, dst = _fun_tuple(states[s]["regs"], n), _fun_tuple(states[d]["regs"], n)
+            exp = {"rdata": tuple(rd), "regs": dst}
+            old = g.setdefault(src, {}).get(act)
+            if old is not None and old != (dst, exp):
+                raise MachineryError("%s: two different outcomes for %s at %s" % (what, act, src))
+            g[src][act] = (dst, exp)
+        want = (n ** sh["rd"]) * (n ** sh["wr"]) * (len(sh["vals"]) ** sh["wr"]) * (2 ** sh["wr"]) * 2
+        for src, acts in g.items():
+            if len(acts) != want:
+                raise MachineryError("%s: %d actions at %s, expected %d" % (what, len(acts), src, want))
+        init_regs = tuple((sh["rv"] if sh["hr"] else 0) for _ in range(n))
+        if len(init) != 1 or _fun_tuple(states[next(iter(init))]["regs"], n) != init_regs:
+            raise MachineryError("%s: unexpected initial state" % what)
+        free = n - (1 if sh["cz"] else 0)
+        if len(g) < len(sh["vals"]) ** free:
+            raise MachineryError("%s: only %d register contents reached" % (what, len(g)))
+        _RG[_rf_key(sh)] = g
+        table[_rf_name(sh)] = [len(g), sum(len(a) for a in g.values())]
+    res.note("regfile_model_check", {"invariants": ["TypeOK", "ConstZeroInv"],
+                                     "step_properties": ["ReadExact", "Frame", "LastPortWins", "ResetExact"],
+                                     "refuted_as_expected": "CanaryNothingEverWritten",
+                                     "shapes_states_transitions": table})
+
+
+def _rf_clause(before, act, got, exp, sh):
+    """Name of the first thing that is wrong with the contents after the edge."""
+    ra, wa, wd, we, rst = act
+    for a in range(len(exp)):
+        if got[a] == exp[a]:
+            continue
+        writers = [i for i in range(len(wa)) if we[i] and wa[i] == a]
+        if sh["hr"] and rst:
+            return "reset-value-not-loaded"
+        if sh["cz"] and a == 0:
+            return "const-zero-register-changed"
+        if not writers:
+            return "register-changed-without-write"
+        if got[a] == before[a]:
+            return "write-lost:writers=%d" % len(writers)
+        return "wrong-value-written:writers=%d" % len(writers)
+    return None
+
+
+def rf_diff(obs, exp):
+    if obs.get("illegal"):
+        return obs["illegal"]
+    for i, (o, e) in enumerate(zip(obs["rdata"], exp["rdata"])):
+        if o != e:
+            return "read-data-differs-from-contents"
+    if tuple(obs["regs"]) != tuple(exp["regs"]):
+        return _rf_clause(exp["before"], exp["act"], obs["regs"], exp["regs"], exp["sh"])
+    return None
+
+
+def rf_perturb(exp, obs, i):
+    e2 = dict(exp)
+    if i % 2 == 0:
+        e2["rdata"] = (exp["rdata"][0] + 1,) + tuple(exp["rdata"][1:])
+    else:
+        r = list(exp["regs"])
+        r[-1] += 1
+        e2["regs"] = tuple(r)
+    return e2
+
+
+def rf_step(dut, act):
+    return dut.cycle(*act)
+
+
+def _rf_graph_for_walk(sh):
+    """The dumped graph with what rf_diff needs to name a mismatch."""
+    g = _RG[_rf_key(sh)]
+    return {src: {act: (dst, dict(exp, before=src, act=act, sh=sh)) for act, (dst, exp) in acts.items()}
+            for src, acts in g.items()}
+
+
+def _rf_shape_obj(sh, typ):
+    import c17_regfile
+    return c17_regfile.Shape("RegisterFileRst" if sh["hr"] else "RegisterFile", typ, sh["n"], sh["rd"], sh["wr"],
+                             sh["cz"], sh["rv"])
+
+
+def _rf_walk_job(job):
+    import c17_regfile
+    sh, typ = job
+    so = _rf_shape_obj(sh, typ)
+    g = _rf_graph_for_walk(sh)
+    init = tuple((sh["rv"] if sh["hr"] else 0) for _ in range(sh["n"]))
+    first = c17_regfile.make(so)
+    r = {"name": so.name(), "sh": sh, "typ": typ}
+    if first.regs() != init:
+        r.update({"init_mismatch": list(first.regs()), "violations": [], "edges": 0, "cycles": 0, "product_states": 0,
+                  "spec_states": 0, "spec_states_total": len(g)})
+        return r
+    box = [first]
+    r.update(walk(lambda: box.pop() if box else c17_regfile.make(so), g, init, rf_step, rf_diff, so.name(),
+                  perturb=rf_perturb))
+    r["name"] = so.name()
+    return r
+
+
+def regfile_walks(res, shapes):
+    jobs = [(sh, typ) for sh in shapes for typ in ("b8", "struct")]
+    with _pool() as ex:
+        results = list(ex.map(_rf_walk_job, jobs))
+    table = {}
+    for r in results:
+        name = r["name"]
+        if "init_mismatch" in r:
+            res.violation("replay:%s:%s" % (name, "reset-value-not-loaded" if r["sh"]["hr"] else "initial-contents-not-zero"),
+                          "%s: contents after sim_reset() are %s" % (name, r["init_mismatch"]), r)
+            continue
+        res.add_evals(r["cycles"])
+        res.count("regfile_spec_to_code_transitions_replayed", r["edges"])
+        res.distinct(("regfile-walk", name))
+        table[name] = [r["product_states"], r["edges"]]
+        for v in r["violations"]:
+            res.violation("replay:%s:%s" % (name, v["clause"]),
+                          "%s: contents %s, ports (raddr, waddr, wdata, wen, reset) = %s -> %s: RegFile.tla expects rdata %s "
+                          "and contents %s, observed %s" % (name, list(v["state"]), [list(x) if isinstance(x, tuple) else x
+                                                                                     for x in v["act"]], v["clause"],
+                                                            list(v["expected"]["rdata"]), list(v["expected"]["regs"]),
+                                                            v["observed"]),
+                          {"dut": name, "shape": r["sh"], "type": r["typ"], "path": [list(map(list, a[:4])) + [a[4]] for a in v["path"]],
+                           "act": list(map(list, v["act"][:4])) + [v["act"][4]], "clause": v["clause"],
+                           "expected": {"rdata": list(v["expected"]["rdata"]), "regs": list(v["expected"]["regs"])},
+                           "observed": v["observed"]})
+        if not r["violations"] and r["spec_states"] != r["spec_states_total"]:
+            raise MachineryError("%s: only %d of %d register contents reached without any mismatch"
+                                 % (name, r["spec_states"], r["spec_states_total"]))
+    res.note("regfile_walks_states_edges", table)
+    ok = [r for r in results if r.get("edges")]
+    if ok:
+        res.sample({"kind": "regfile spec->code walk", "dut": ok[0]["name"], "states": ok[0]["product_states"],
+                    "transitions": ok[0]["edges"]})
+
+
+_RF_FAULTS = ("first-wins", "wrong-reg", "cz-port", "cz-off", "rst-skip-last", "forward", "lose-write")
+
+
+def _rf_soft_job(job):
+    import c17_regfile
+    sh, fault = job
+    so = _rf_shape_obj(sh, "b8")
+    init = tuple((sh["rv"] if sh["hr"] else 0) for _ in range(sh["n"]))
+    g = _rf_graph_for_walk(sh)
+    r = walk(lambda: c17_regfile.SoftRegFile(so, fault), g, init, rf_step, rf_diff,
+             ("faulty-%s" % fault) if fault else "soft-" + so.name(), limit=2 if fault else MAX_VIOL_PER_DUT)
+    return {"sh": sh, "fault": fault, "edges": r["edges"], "complete": r["spec_states"] == len(g),
+            "violations": [(v["clause"], v["state"], v["act"]) for v in r["violations"]]}
+
+
+def regfile_walk_canaries(res, shapes):
+    """The independent software register file must agree with every dumped graph; each injected fault must be
+    noticed on the first shape that can show it."""
+    jobs = [(sh, None) for sh in shapes]
+    for fault in _RF_FAULTS:
+        sh = next((sh for sh in shapes if not ((fault in ("first-wins", "cz-port") and sh["wr"] < 2) or
+                                               (fault in ("cz-port", "cz-off") and not sh["cz"]) or
+                                               (fault == "rst-skip-last" and not sh["hr"]))), None)
+        if sh is None:
+            raise MachineryError("walk canary: no shape for fault %s" % fault)
+        jobs.append((sh, fault))
+    with _pool() as ex:
+        results = list(ex.map(_rf_soft_job, jobs))
+    n, rej = 0, {}
+    for r in results:
+        if r["fault"] is None:
+            if r["violations"] or not r["complete"]:
+                raise MachineryError("RegFile.tla(%s) and the independent software model disagree: %s"
+                                     % (_rf_name(r["sh"]), r["violations"][:2]))
+            n += r["edges"]
+        elif not r["violations"]:
+            raise MachineryError("walk canary: faulty register file (%s, %s) was not noticed" % (r["fault"], _rf_name(r["sh"])))
+        else:
+            rej[r["fault"]] = sorted({v[0] for v in r["violations"]})
+    res.note("regfile_spec_vs_independent_model_transitions", n)
+    res.note("regfile_walk_canaries_rejected", rej)
+
+
+# ---- code -> spec
+
+_RF_TYPES = ("b1", "b8", "b16", "b31", "b32", "struct")
+
+
+def _rf_random_shapes(R, count, nregs_pool):
+    import c17_regfile
+    out = []
+    for i in range(count):
+        n = nregs_pool[i % len(nregs_pool)]
+        typ = _RF_TYPES[(i // 2) % len(_RF_TYPES)]
+        cls = "RegisterFileRst" if (i + i // 5) % 2 else "RegisterFile"
+        lim = min(2 ** c17_regfile.type_nbits(typ), 2 ** 31)
+        rv = R.randrange(lim) if cls == "RegisterFileRst" and R.random() < 0.7 else 0
+        out.append(c17_regfile.Shape(cls, typ, n, 1 + (i % 3), 1 + ((i // 3) % 2), R.random() < 0.5, rv))
+    return out
+
+
+def rf_record(dut, R, length, sh, nbits):
+    lim = min(2 ** nbits, 2 ** 31)
+    n = sh.nregs
+    t = {"n": n, "cz": int(sh.cz), "hr": int(sh.hr), "rv": sh.rv, "init": list(dut.regs()), "ev": []}
+    hot = [R.randrange(n) for _ in range(2)] + [0]
+    addr = lambda: R.choice(hot) if R.random() < 0.55 else R.randrange(n)
+    last_w = 0
+    for _ in range(length):
+        wa = [addr() for _ in range(sh.wr)]
+        if sh.wr > 1 and R.random() < 0.3:
+            wa[1] = wa[0]                                    # two ports, one address
+        ra = [(last_w if R.random() < 0.3 else addr()) for _ in range(sh.rd)]
+        if R.random() < 0.3:
+            ra[0] = wa[0]                                    # read the address being written
+        wd = [R.randrange(lim) for _ in range(sh.wr)]
+        we = [R.random() < 0.6 for _ in range(sh.wr)]
+        rst = R.random() < 0.02
+        try:
+            obs = dut.cycle(ra, wa, wd, we, rst)
+            ev = {"ra": ra, "rd": list(obs["rdata"]), "wa": wa, "wd": wd, "we": [int(x) for x in we], "rst": int(rst),
+                  "regs": list(obs["regs"]), "bad": ""}
+        except MachineryError:
+            raise
+        except Exception as e:
+            ev = {"ra": ra, "rd": [0] * sh.rd, "wa": wa, "wd": wd, "we": [int(x) for x in we], "rst": int(rst), "regs": [],
+                  "bad": "raises-" + type(e).__name__}
+            t["ev"].append(ev)
+            break
+        t["ev"].append(ev)
+        last_w = wa[-1]
+    return t
+
+
+def _rf_trace_job(job):
+    import c17_regfile
+    tup, idx, length = job
+    sh = c17_regfile.Shape(*tup)
+    dut = c17_regfile.make(sh)
+    t = rf_record(dut, rng("c17/regfile/%s/%d" % (sh.name(), idx)), length, sh, c17_regfile.type_nbits(sh.typ))
+    t["dut"], t["idx"], t["shape"] = sh.name(), idx, tup
+    return t
+
+
+_RF_KEYS = ("n", "cz", "hr", "rv", "init", "ev")
+
+
+def regfile_traces(res, count, nregs_pool, lmin, lmax):
+    R = rng("c17-regfile-shapes")
+    shapes = _rf_random_shapes(R, count, nregs_pool)
+    jobs = [(sh.tuple(), i, R.randint(lmin, lmax)) for i, sh in enumerate(shapes)]
+    with _pool() as ex:
+        traces = list(ex.map(_rf_trace_job, jobs, chunksize=2))
+    nev = sum(len(t["ev"]) for t in traces)
+    res.add_evals(nev)
+    runs, verdicts = tlc.validate_traces("RegFileTrace", {"traces": [{k: t[k] for k in _RF_KEYS} for t in traces]},
+                                         chunk=max(1, min(40, len(traces) // 16 + 1)))
+    for r in runs:
+        res.add_tlc(r)
+        for p in r.prints:
+            if p and p[0] == "T":
+                res.count("regfile_writes_in_traces", p[2])
+    res.add_traces(len(traces))
+    ok = []
+    for t, (err, pos) in zip(traces, verdicts):
+        res.distinct(("regfile-trace", t["dut"], t["idx"]))
+        if err == "ok":
+            ok.append(t)
+            continue
+        e = t["ev"][pos - 1]
+        res.violation("trace:%s:%s" % (t["dut"], err),
+                      "%s: %s at cycle %d of a random port history: %s" % (t["dut"], err, pos, {k: e[k] for k in e if k != "regs"}),
+                      {"dut": t["dut"], "shape": t["shape"], "idx": t["idx"], "clause": err, "event": pos,
+                       "prefix": t["ev"][max(0, pos - 6):pos]})
+    hits = {"two_ports_one_address": 0, "read_of_address_being_written": 0, "write_to_reg0_of_const_zero": 0, "resets": 0}
+    for t in ok:
+        for e in t["ev"]:
+            en = [a for a, w in zip(e["wa"], e["we"]) if w]
+            hits["two_ports_one_address"] += int(len(en) > len(set(en)))
+            hits["read_of_address_being_written"] += int(any(a in en for a in e["ra"]))
+            hits["write_to_reg0_of_const_zero"] += int(t["cz"] and 0 in en)
+            hits["resets"] += e["rst"]
+    res.note("regfile_trace_events", nev)
+    res.note("regfile_trace_hits", hits)
+    res.note("regfile_trace_shapes", sorted({t["dut"] for t in traces})[:60])
+    if ok and not all(hits.values()):
+        raise MachineryError("random register-file histories never reached a boundary case: %s" % hits)
+    if ok:
+        t = ok[len(ok) // 2]
+        res.sample({"kind": "regfile impl trace", "dut": t["dut"], "events": len(t["ev"]),
+                    "first": {k: t["ev"][0][k] for k in ("ra", "rd", "wa", "wd", "we", "rst")}})
+    return ok
+
+
+def regfile_trace_canaries(res, ok):
+    import c17_regfile
+    can, what = [], []
+    R = rng("c17-regfile-canary")
+    pool = [t for t in ok if len(t["ev"]) >= 20]
+    R.shuffle(pool)
+    for t in pool[:20]:
+        c = {k: copy.deepcopy(t[k]) for k in _RF_KEYS}
+        ev = c["ev"]
+        kind = len(can) % 5
+        wr = [i for i, e in enumerate(ev) if any(e["we"]) and not e["rst"] and e["regs"]
+              and e["regs"] != (ev[i - 1]["regs"] if i else c["init"])]
+        if kind == 0:                       # wrong read data
+            i = len(ev) // 2
+            ev[i]["rd"][0] = (ev[i]["rd"][0] + 1) % (2 ** 31)
+        elif kind == 1 and wr:              # an effective write undone in the recorded contents (write lost)
+            i = wr[len(wr) // 2]
+            ev[i]["regs"] = list(ev[i - 1]["regs"] if i else c["init"])
+        elif kind == 2:                     # a register changes without a write
+            i = len(ev) // 2
+            a = (ev[i]["wa"][0] + 1) % c["n"] if c["n"] > 1 else 0
+            ev[i]["regs"][a] = (ev[i]["regs"][a] + 1) % (2 ** 31)
+            if c["n"] == 1:
+                ev[i]["we"] = [0] * len(ev[i]["we"])
+        elif kind == 3:                     # stale read: the data read is what was there two writes ago
+            i = len(ev) - 1
+            ev[i]["rd"][-1] = (ev[i]["rd"][-1] + 7) % (2 ** 31)
+        else:                               # wrong initial contents
+            c["init"][-1] = (c["init"][-1] + 1) % (2 ** 31)
+        can.append(c)
+        what.append(("corrupt", kind))
+    sh0 = c17_regfile.Shape
+    for fault in _RF_FAULTS:
+        sh = sh0("RegisterFileRst", "b8", 5, 2, 2, True, 3)
+        t = rf_record(c17_regfile.SoftRegFile(sh, fault), rng("c17-faulty-rf-" + fault), 300, sh, 8)
+        can.append({k: t[k] for k in _RF_KEYS})
+        what.append(("faulty", fault))
+    sh = sh0("RegisterFileRst", "b8", 5, 2, 2, True, 3)
+    t = rf_record(c17_regfile.SoftRegFile(sh, None), rng("c17-soft-rf-ok"), 300, sh, 8)
+    can.append({k: t[k] for k in _RF_KEYS})
+    what.append(("soft-ok", None))
+    _, cv = tlc.validate_traces("RegFileTrace", {"traces": can})
+    if cv[-1][0] != "ok":
+        raise MachineryError("the history of a correct software register file was rejected: %s" % (cv[-1],))
+    acc = [what[i] for i, v in enumerate(cv[:-1]) if v[0] == "ok"]
+    if acc:
+        raise MachineryError("canary traces accepted by RegFileTrace: %s" % acc[:5])
+    if len(can) < 12:
+        raise MachineryError("too few register-file canary traces (%d)" % len(can))
+    res.note("regfile_trace_canaries_rejected", len(can) - 1)
+    res.note("regfile_trace_canary_clauses", sorted({v[0] for v in cv[:-1]}))
+
+
+def run_regfile(res, quick, lap):
+    shapes = list(_RF_SMALL if quick else _RF_MORE)
+    if any(_rf_key(sh) not in _RG for sh in shapes):
+        regfile_model_check(res, shapes)
+    regfile_walks(res, shapes)
+    regfile_walk_canaries(res, shapes[:6])
+    lap("regfile_walks")
+    pool = (1, 2, 3, 4, 5, 6, 7, 8, 13, 16, 32) if quick else (1, 2, 3, 4, 5, 6, 7, 8, 9, 11, 13, 16, 24, 32, 33, 64)
+    ok = regfile_traces(res, 44 if quick else 640, pool, 150, 300 if quick else 1200)
+    lap("regfile_traces")
+    regfile_trace_canaries(res, ok)
+    lap("regfile_trace_canaries")
+    res.note("rule_regfile", "spec->code: every transition (raddr[], waddr[], wdata[], wen[], reset) of RegFile.tla from every "
+             "register contents of %d small shapes x {Bits8, bitstruct}; code->spec: one random port history (150..%d cycles; hot "
+             "addresses, two ports on one address, reads of the address being written, 2%% reset cycles) for each of %d shapes "
+             "(nregs from %s, 1..3 read ports, 1..2 write ports, both classes, const_zero, Bits1..Bits32 / bitstruct)"
+             % (len(shapes), 300 if quick else 1200, 44 if quick else 640, list(pool)))
+    res.assume("register files: addresses are kept below nregs (an address beyond a non-power-of-two nregs is an "
+               "IndexError in simulation); contents are read from s.regs[i] (white box); payload values stay below 2^31")
+    res.assume("RegisterFileRst with const_zero and a non-zero reset_value: reset loads reset_value into register 0 too "
+               "(the code's loop does not skip it); modelled as the code does it")
+
+
+# ============================================================================================
+# replay of a recorded violation
+# ============================================================================================
+
+def replay(obj):
+    """Re-drive the recorded action path of an adapter / register-file violation.  Returns None when the
+    violation belongs to the queue part."""
+    d = obj.get("detail") or {}
+    key = obj.get("key", "")
+    if not isinstance(d, dict) or "dut" not in d:
+        return None
+    if "shape" in d and "path" in d:
+        import c17_regfile
+        dut = c17_regfile.make(_rf_shape_obj(d["shape"], d["type"]))
+        print("property C17  key=%s\n  %s" % (key, obj.get("what")))
+        for a in list(d["path"]) + [d["act"]]:
+            print("  raddr=%s waddr=%s wdata=%s wen=%s reset=%s ->" % tuple(a), dut.cycle(*a))
+        print("  expected at the last step:", d["expected"])
+        return 1
+    if "spec_state" in d and "path" in d:
+        import c17_adapters
+        e = next(x for x in c17_adapters.catalogue() if x.name == d["dut"])
+        dut = _make_adapter(e.name, e.cls, d.get("clear_first"))
+        print("property C17  key=%s\n  %s" % (key, obj.get("what")))
+        for a in list(d["path"]) + [d["act"]]:
+            o = dut.cycle(bool(a[0]), a[1], bool(a[2]), bool(a[3]))
+            print("  cycle enq=%s m=%s deq=%s rst=%s ->" % tuple(a), {k: v for k, v in o.items() if v is not None})
+        print("  expected at the last step:", d["expected"])
+        return 1
+    if key.startswith("trace:") and ("model" in d or "shape" in d):
+        print("property C17  key=%s\n  %s" % (key, obj.get("what")))
+        for e in d.get("prefix", []):
+            print("  ", e)
+        return 1
+    return None
